@@ -31,7 +31,7 @@ class UnitResult(object):
         self.notes = []
 
 
-def generate(reg, units, lemmas, repo, scope=None, strmode="opaque", only=None):
+def generate(reg, units, lemmas, repo, scope=None, strmode="opaque", only=None, refinements=()):
     """Returns (engine, list of UnitResult with .obls = [Obl]).  Errors are recorded per unit."""
     eng = Engine(reg, repo, scope=scope, strmode=strmode)
     results = []
@@ -66,6 +66,23 @@ def generate(reg, units, lemmas, repo, scope=None, strmode="opaque", only=None):
             eng.verify_lemma(lm["name"], lm["decls"], lm.get("hyps", []), lm["goals"], lm.get("module"))
             ur.info = dict(file="<lemma>", qualname=lm["name"], lines=[0, 0], sha1="", decorators=[], paths=1)
         except (OutsideSubset, SourceError) as e:
+            ur.error = "%s: %s" % (type(e).__name__, e)
+        ur.obls = eng.obls[n0:]
+        ur.covers = eng.covers[c0:]
+        ur.scope_constraints = list(CTX.scope_constraints)
+    for over_key, iface_key in refinements:
+        ur = UnitResult("refines::%s<=%s" % (over_key[1], ".".join(iface_key)))
+        results.append(ur)
+        if only and ur.name not in only:
+            continue
+        n0, c0 = len(eng.obls), len(eng.covers)
+        try:
+            over = reg.contracts[over_key]
+            iface = reg.ifaces[iface_key] if iface_key in reg.ifaces else reg.contracts[iface_key]
+            eng.verify_refinement(over, iface)
+            ur.name = eng.unit
+            ur.info = dict(file="<refinement>", qualname=eng.unit, lines=[0, 0], sha1="", decorators=[], paths=1)
+        except (OutsideSubset, SourceError, KeyError) as e:
             ur.error = "%s: %s" % (type(e).__name__, e)
         ur.obls = eng.obls[n0:]
         ur.covers = eng.covers[c0:]
